@@ -39,9 +39,11 @@ from iOpt.trial import FunctionValue, Point  # noqa: E402
 class FnProblem(Problem):
     """A user-defined objective f: box -> R."""
 
-    def __init__(self, n, lo, up, f, name="fn"):
+    def __init__(self, n, lo, up, f, name="fn", ret="same"):
         super().__init__()
         self.name = name
+        self.ret = ret          # "same": the value is stored in the supplied holder, which is returned; "fresh": a user's problem that
+        #                         builds the FunctionValue it returns itself (the solver stores what Calculate returns)
         self.dimension = n
         self.numberOfFloatVariables = n
         self.numberOfDisreteVariables = 0
@@ -53,7 +55,12 @@ class FnProblem(Problem):
         self.f = f
 
     def Calculate(self, point, functionValue):
-        functionValue.value = self.f([float(t) for t in point.floatVariables])
+        v = self.f([float(t) for t in point.floatVariables])
+        if self.ret == "fresh":
+            out = FunctionValue(functionValue.type, functionValue.functionID)
+            out.value = v
+            return out
+        functionValue.value = v
         return functionValue
 
 
@@ -512,4 +519,4 @@ def random_problem(rng, n=None):
     n = n or rng.choice([1, 1, 2, 2, 3, 4, 5])
     lo, up = rand_box_solver(rng, n)
     name, f = objective_zoo(rng, n, lo, up)
-    return FnProblem(n, lo, up, f, name)
+    return FnProblem(n, lo, up, f, name, ret="fresh" if rng.random() < 0.15 else "same")
